@@ -212,3 +212,71 @@ def _inside_other_call(root: ast.expr, target: ast.Call) -> bool:
         return None
 
     return bool(visit(root, False))
+
+
+# ---------------------------------------------------------------------------------------------------------------------
+def loop_alias_rule(repo: Repo, prop: str, rule_id: str, floor: int = 2) -> RuleRun:
+    """The same array is handed, inside a loop over an entity's parts, to a method that adds it to its receiver's storage IN
+    PLACE (``self.position += np.asarray(displacement)``: np.asarray keeps the alias). If the caller's array is the storage of
+    one of the parts - ``sketch.translate(sketch.center)``: DiskBase.center is the position array of the first point - it
+    changes when that part is moved and every later part receives the changed vector. So the loop must work on a private copy
+    (``np.array(x)`` / ``x.copy()`` bound before the loop)."""
+    r = RuleRun(prop, rule_id, floor=floor, what="an array handed in a loop to in-place updating methods of the entity's parts is a private copy made before the loop (the caller's array may be the storage of one of the parts)")
+    # methods that add an array parameter to self's storage in place
+    inplace: dict = {}
+    for fn in repo.all_functions():
+        if fn.cls is None or len(fn.params) < 2:
+            continue
+        for n in walk_shallow(fn.node):
+            if isinstance(n, ast.AugAssign) and isinstance(n.target, ast.Attribute) and isinstance(n.target.value, ast.Name) and n.target.value.id == fn.params[0]:
+                # the parameter ITSELF is what is added (possibly through np.asarray, which keeps the alias): a computed value
+                # (direction * amount) is a fresh array, and lists of labels are not coordinates
+                v = n.value
+                if isinstance(v, ast.Call) and (attr_chain(v.func) or "").split(".")[-1] in ("asarray", "asanyarray") and v.args:
+                    v = v.args[0]
+                if isinstance(v, ast.Name) and v.id in fn.params[1:]:
+                    ann = next((a.annotation for a in fn.node.args.args if a.arg == v.id), None)
+                    if n.value is not v or (ann is not None and any(t in ast.unparse(ann) for t in ARRAY_TYPES)):
+                        inplace.setdefault(fn.name, {})[fn.qualname] = fn.params.index(v.id)
+    COPY = ("array", "copy", "deepcopy")
+    for cls in _elements(repo):
+        for m in sorted(cls.methods.values(), key=lambda f: f.name):
+            params = set(m.params[1:])
+            for lp in [n for n in ast.walk(m.node) if isinstance(n, ast.For)]:
+                for c in ast.walk(lp):
+                    if not (isinstance(c, ast.Call) and isinstance(c.func, ast.Attribute) and c.func.attr in inplace):
+                        continue
+                    if isinstance(c.func.value, ast.Name) and c.func.value.id == m.params[0]:
+                        continue  # a call on self, not on a part
+                    for a in c.args:
+                        root = a
+                        while isinstance(root, ast.Attribute):
+                            root = root.value
+                        if not isinstance(root, ast.Name):
+                            continue
+                        # a parameter, or something read off a parameter (t7m.displacement for t7m in transforms)
+                        from_param = root.id in params or any(isinstance(o, ast.For) and isinstance(o.target, ast.Name) and o.target.id == root.id and isinstance(o.iter, ast.Name) and o.iter.id in params for o in ast.walk(m.node))
+                        private = False
+                        if isinstance(a, ast.Name):
+                            for st in ast.walk(m.node):
+                                if isinstance(st, ast.Assign) and any(isinstance(t, ast.Name) and t.id == a.id for t in st.targets) and st.lineno < c.lineno:
+                                    v = st.value
+                                    nm = (attr_chain(v.func) or "").split(".")[-1] if isinstance(v, ast.Call) else ""
+                                    inside = any(st is x for x in ast.walk(lp))
+                                    if nm in COPY and not inside:
+                                        private = True
+                                        from_param = True  # a local that exists for this purpose: count the instance
+                                    elif nm in ("asarray", "asanyarray") or isinstance(v, (ast.Name, ast.Attribute)):
+                                        from_param = from_param or any(isinstance(x, ast.Name) and x.id in params for x in ast.walk(v))
+                        if not from_param:
+                            continue
+                        r.check(
+                            private,
+                            m,
+                            f"'{ast.unparse(c)[:50]}' in a loop: the array is a copy made before the loop",
+                            f"{m.qualname} hands '{ast.unparse(a)}' to {c.func.attr}() of every part in a loop; {', '.join(sorted(inplace[c.func.attr]))[:120]} add it to their storage in place. "
+                            "When the caller passes the storage of one of the parts (entity.translate(entity.center)) the vector changes after that part and the remaining parts are moved by a different amount",
+                            c,
+                            key=f"loop:{c.func.attr}:{ast.unparse(a)}",
+                        )
+    return r
